@@ -1400,6 +1400,11 @@ impl Melda {
     pub fn meld(&self, other: &Melda) -> Result<Vec<String>> {
         let mut result = vec![];
 
+        // Melding a replica with itself transfers nothing (and must not lock its data twice)
+        if std::ptr::eq(self, other) {
+            return Ok(result);
+        }
+
         let other_data_r = other.data.read().unwrap();
         // We only trust already loaded deltas
         let other_delta_items = other
